@@ -47,7 +47,7 @@ impl GuardBuf {
     pub fn fill_canary(&mut self) {
         // only touch what was used before (large NORESERVE mappings stay sparse): callers that
         // use big buffers call `fill_canary_range`
-        unsafe { ptr::write_bytes(self.data, CANARY, self.data_len.min(1 << 16)) };
+        unsafe { ptr::write_bytes(self.data, CANARY, self.data_len.min(1 << 20)) };
     }
     pub fn fill_canary_range(&mut self, start: usize, len: usize) {
         let start = start.min(self.data_len);
